@@ -375,7 +375,7 @@ func GenRegexpText(g G, c *Corpus, fromName bool, allowAssert bool) (string, []s
 		return regexp.QuoteMeta(p)
 	}
 	word := func() string { return regexp.QuoteMeta(Pick(g, Words, "rw")) }
-	k := g.Int(0, 14, "rekind")
+	k := g.U(16, "rekind")
 	if !allowAssert && (k == 3 || k == 6 || k == 7) {
 		k = 1
 	}
@@ -434,9 +434,47 @@ func GenRegexpText(g G, c *Corpus, fromName bool, allowAssert bool) (string, []s
 			a, b = b, a
 		}
 		return a + "|" + b, []string{"re:alt-casevariants"}
+	case 14:
+		// two words of one line of a document, in order: lit1.*lit2 with a true
+		// same-line match (the andLineMatchTree shortcut), often far into a
+		// document with multi-byte text before it
+		if s, ok := sameLinePair(g, c); ok {
+			return s, []string{"re:sameline"}
+		}
+		return lit() + ".*" + lit(), []string{"re:concat"}
 	default:
 		return lit() + ".*" + lit() + ".*" + lit(), []string{"re:concat3"}
 	}
+}
+
+// sameLinePair picks a line of some document that holds two words of at
+// least three runes and returns `w1.*w2`.
+func sameLinePair(g G, c *Corpus) (string, bool) {
+	for try := 0; try < 4; try++ {
+		r := &c.Repos[g.U(len(c.Repos), "slrepo")]
+		if len(r.Docs) == 0 {
+			continue
+		}
+		d := &r.Docs[g.U(len(r.Docs), "sldoc")]
+		lines := strings.Split(string(d.EffectiveContent()), "\n")
+		// prefer late lines
+		start := g.U(len(lines), "slline")
+		for li := start; li < len(lines); li++ {
+			var ws []string
+			for _, w := range strings.FieldsFunc(lines[li], func(r rune) bool {
+				return r == ' ' || r == '\t' || r == '\r' || r == '(' || r == ')' || r == ';' || r == ',' || r == '=' || r == ':'
+			}) {
+				if utf8.RuneCountInString(w) >= 3 {
+					ws = append(ws, w)
+				}
+			}
+			if len(ws) >= 2 {
+				i := g.U(len(ws)-1, "slw")
+				return regexp.QuoteMeta(ws[i]) + ".*" + regexp.QuoteMeta(ws[i+1+g.U(len(ws)-i-1, "slw2")]), true
+			}
+		}
+	}
+	return "", false
 }
 
 // QueryOpts steers the query generator.
